@@ -27,6 +27,7 @@ import (
 	"strconv"
 	"strings"
 	"sync"
+	"sync/atomic"
 	"syscall"
 	"time"
 
@@ -408,6 +409,12 @@ type workerRes struct {
 	Plan     []byte
 }
 
+// jobSeq numbers the worker processes started by this verifctl: the race
+// runtime names its log <log_path>.<pid>, and process ids are reused within
+// a long run (a worker that inherited the stale log of an earlier one took
+// its size for its own starting mark and then missed its own canary report)
+var jobSeq int64
+
 func runWorker(bin string, job *Job, dir string, memLimitMB int, timeout time.Duration, extraEnv ...string) *workerRes {
 	jf := filepath.Join(dir, fmt.Sprintf("job.%d.json", job.Worker))
 	job.Out = filepath.Join(dir, fmt.Sprintf("out.%d.json", job.Worker))
@@ -432,7 +439,7 @@ func runWorker(bin string, job *Job, dir string, memLimitMB int, timeout time.Du
 	cmd := exec.Command("sh", "-c", sh)
 	cmd.Dir = dir
 	cmd.Env = append(os.Environ(), "VERIF_JOB="+jf, "GODEBUG=asynctimerchan=0", "GOMAXPROCS=2",
-		"GORACE=halt_on_error=0 log_path="+filepath.Join(dir, fmt.Sprintf("race.%d", job.Worker))+" history_size=2 exitcode=0")
+		"GORACE=halt_on_error=0 log_path="+filepath.Join(dir, fmt.Sprintf("race.%d.j%d", job.Worker, atomic.AddInt64(&jobSeq, 1)))+" history_size=2 exitcode=0")
 	if v := os.Getenv("VERIF_GOMAXPROCS"); v != "" {
 		cmd.Env = append(cmd.Env, "GOMAXPROCS="+v)
 	}
@@ -471,7 +478,7 @@ func runWorker(bin string, job *Job, dir string, memLimitMB int, timeout time.Du
 	if b, err := os.ReadFile(job.Out); err == nil {
 		wr.Raw = b
 		json.Unmarshal(b, &wr.Res)
-	} else if logs, _ := filepath.Glob(filepath.Join(dir, fmt.Sprintf("race.%d.*", job.Worker))); len(logs) > 0 {
+	} else if logs, _ := filepath.Glob(filepath.Join(dir, fmt.Sprintf("race.%d.j*", job.Worker))); len(logs) > 0 {
 		// a worker that died inside the sanitizer runtime leaves its last words in the race log
 		sort.Strings(logs)
 		if lb, err := os.ReadFile(logs[len(logs)-1]); err == nil {
@@ -492,26 +499,26 @@ func runWorker(bin string, job *Job, dir string, memLimitMB int, timeout time.Du
 
 // Result mirrors the driver's Result (only what is aggregated).
 type Result struct {
-	Prop          string                   `json:"prop"`
-	Runs          int                      `json:"runs"`
-	Steps         uint64                   `json:"steps"`
-	SimTimeMs     int64                    `json:"sim_time_ms"`
-	WallMs        int64                    `json:"wall_ms"`
-	Faults        map[string]int           `json:"faults"`
-	Probes        map[string]int           `json:"probes"`
-	Scenarios     map[string]int           `json:"scenarios"`
-	Distinct      []uint64                 `json:"distinct"`
-	ProjDistinct  []uint64                 `json:"proj_distinct"`
-	StateDistinct []uint64                 `json:"state_distinct"`
-	Inconclusive  map[string]int           `json:"inconclusive"`
-	Violations    []json.RawMessage        `json:"violations"`
-	Known         map[string]int           `json:"known"`
-	KnownText     map[string]string        `json:"known_text"`
-	Samples       []interface{}            `json:"samples"`
-	TraceLog      []string                 `json:"trace_log"`
-	RaceBuild     bool                     `json:"race_build"`
-	Error         string                   `json:"error"`
-	RaceNotes     map[string]int           `json:"race_notes"`
+	Prop          string            `json:"prop"`
+	Runs          int               `json:"runs"`
+	Steps         uint64            `json:"steps"`
+	SimTimeMs     int64             `json:"sim_time_ms"`
+	WallMs        int64             `json:"wall_ms"`
+	Faults        map[string]int    `json:"faults"`
+	Probes        map[string]int    `json:"probes"`
+	Scenarios     map[string]int    `json:"scenarios"`
+	Distinct      []uint64          `json:"distinct"`
+	ProjDistinct  []uint64          `json:"proj_distinct"`
+	StateDistinct []uint64          `json:"state_distinct"`
+	Inconclusive  map[string]int    `json:"inconclusive"`
+	Violations    []json.RawMessage `json:"violations"`
+	Known         map[string]int    `json:"known"`
+	KnownText     map[string]string `json:"known_text"`
+	Samples       []interface{}     `json:"samples"`
+	TraceLog      []string          `json:"trace_log"`
+	RaceBuild     bool              `json:"race_build"`
+	Error         string            `json:"error"`
+	RaceNotes     map[string]int    `json:"race_notes"`
 }
 
 func nWorkers() int {
@@ -1000,34 +1007,34 @@ func writeEvidence(id, tier string, seed int64, pc *PropCfg, bo *buildOut, tot *
 		samples = []interface{}{"no run completed"}
 	}
 	cov := map[string]interface{}{
-		"evaluations":         tot.Runs,
-		"distinct_nontrivial": distinct,
-		"rule":                pc.Rule,
-		"samples":             samples,
-		"runs_per_hour":       int(float64(tot.Runs) / hours),
-		"seeds_per_hour":      int(float64(tot.Runs) / hours),
-		"simulated_seconds":   float64(tot.SimTimeMs) / 1000,
-		"scheduler_steps":     tot.Steps,
-		"faults_fired":        tot.Faults,
-		"reach_probes":        tot.Probes,
-		"scenarios":           tot.Scenarios,
+		"evaluations":                   tot.Runs,
+		"distinct_nontrivial":           distinct,
+		"rule":                          pc.Rule,
+		"samples":                       samples,
+		"runs_per_hour":                 int(float64(tot.Runs) / hours),
+		"seeds_per_hour":                int(float64(tot.Runs) / hours),
+		"simulated_seconds":             float64(tot.SimTimeMs) / 1000,
+		"scheduler_steps":               tot.Steps,
+		"faults_fired":                  tot.Faults,
+		"reach_probes":                  tot.Probes,
+		"scenarios":                     tot.Scenarios,
 		"distinct_schedule_projections": proj,
 		"distinct_state_fingerprints":   states,
-		"inconclusive":        tot.Inconclusive,
-		"known_findings_seen": tot.Known,
-		"race_build_runs":     raceRuns,
-		"race_notes":          tot.RaceNotes,
-		"instrumented_sites":  len(bo.Report.Sites),
-		"rewritten_selectors": bo.Report.Rewritten,
-		"unsimulated_io_selectors": bo.Report.Unsimulated,
-		"instrumenter_warnings":    bo.Report.Warnings,
-		"tree_hash":           bo.TreeHash,
-		"build_seconds":       bo.BuildSec,
-		"workers":             nWorkers(),
+		"inconclusive":                  tot.Inconclusive,
+		"known_findings_seen":           tot.Known,
+		"race_build_runs":               raceRuns,
+		"race_notes":                    tot.RaceNotes,
+		"instrumented_sites":            len(bo.Report.Sites),
+		"rewritten_selectors":           bo.Report.Rewritten,
+		"unsimulated_io_selectors":      bo.Report.Unsimulated,
+		"instrumenter_warnings":         bo.Report.Warnings,
+		"tree_hash":                     bo.TreeHash,
+		"build_seconds":                 bo.BuildSec,
+		"workers":                       nWorkers(),
 		"real_vs_stub": map[string]string{
-			"real": "vflow main package (main, GetOptions, run/shutdown/workers, stats handler, mirror), ipfix, netflow/v9, netflow/v5, sflow, packet, reader, producer (Producer, RawSocket), mirror; Go runtime, channels, mutexes, encoding/json, yaml, flag, log",
+			"real":      "vflow main package (main, GetOptions, run/shutdown/workers, stats handler, mirror), ipfix, netflow/v9, netflow/v5, sflow, packet, reader, producer (Producer, RawSocket), mirror; Go runtime, channels, mutexes, encoding/json, yaml, flag, log",
 			"simulated": "UDP sockets, sink connection, disk, raw socket, sync.Pool, signals, exit, env/argv, clock (synctest), goroutine scheduling",
-			"not_run": "Kafka/NSQ/NATS clients, HTTP listener (handler called directly), RPC client loop and multicast discovery, consumers, monitor, stress",
+			"not_run":   "Kafka/NSQ/NATS clients, HTTP listener (handler called directly), RPC client loop and multicast discovery, consumers, monitor, stress",
 		},
 		"exhaustive": false,
 	}
